@@ -42,6 +42,7 @@ static void ostream_write(VERIF_OSTREAM *fs, const char *p, size_t n)
   fs->len += n;
 }
 
-#define LE32_AT(b, o) ((uint32_t)(b)[(o)] | ((uint32_t)(b)[(o) + 1] << 8) | ((uint32_t)(b)[(o) + 2] << 16) | ((uint32_t)(b)[(o) + 3] << 24))
-#define LE64_AT(b, o) ((uint64_t)LE32_AT(b, o) | ((uint64_t)LE32_AT(b, (o) + 4) << 32))
+/* little-endian words of the byte stream (typed loads: the verifier's byte order is the host's, x86-64) */
+#define LE32_AT(b, o) (*(const uint32_t *)((b) + (o)))
+#define LE64_AT(b, o) (*(const uint64_t *)((b) + (o)))
 #endif
